@@ -337,6 +337,25 @@ def tdftype_tasks():
             ob = _outcome(interp, lambda: interp.call(f, [self_, arr], {}))
             compare_outcomes(interp, f"TDF.{nm}.write(array)", ob, ("return", VBytes(atoms)))
         out.append(Task(f"TDF.{nm}.write(array)", "basictdf.tdfTypes.TdfType.write", ["C01", "C06", "C02"], t_write, kind="prim"))
+    def t_write_pairs(interp):
+        """LinkType.write of a Python list of (track, track) tuples -- what a caller may assign to Data3D.links instead of a
+        record array: one 8-byte record per pair"""
+        ctx = interp.ctx
+        self_ = interp.loader.import_module(interp, "basictdf.tdfData3D").ns["LinkType"]
+        bt = self_.fields["btype"]
+        n = z3.Const("n", I)
+        ctx.assume(n >= 0)
+        a, b = z3.Function("pair_first", I, I), z3.Function("pair_second", I, I)
+        k0 = z3.Const("k!pairs", I)
+        ctx.assume(z3.ForAll([k0], z3.And(_in_range("u4", a(k0)), _in_range("u4", b(k0)))))
+        lst = VList(None, n, lambda k: (a(zint(k)), b(zint(k))), label="pairs")
+        f, _ = self_.cls.lookup("write")
+        interp.inline_only.add(f.qualname)
+        ob = _outcome(interp, lambda: interp.call(f, [self_, lst], {}))
+        from .stream import AFold
+        want = [AFold(0, n, lambda j: [AField("u4", 1, Seq.of([a(zint(j))])), AField("u4", 1, Seq.of([b(zint(j))]))])]
+        compare_outcomes(interp, "TDF.tdfData3D.LinkType.write(list of pairs)", ob, ("return", VBytes(want)))
+    out.append(Task("TDF.tdfData3D.LinkType.write(list of pairs)", "basictdf.tdfTypes.TdfType.write", ["C01", "C06", "C02"], t_write_pairs, kind="prim"))
     # scalar writes, skip / pad / bpad / nBytes on the scalar types
     for nm in ["tdfTypes.i32", "tdfTypes.u32", "tdfTypes.i16", "tdfTypes.u16", "tdfTypes.f32", "tdfTypes.f64"]:
         modn, attr = nm.split(".")
